@@ -121,6 +121,8 @@ type Gen struct {
 	depth  int
 	// SetAll forces every Maybe/Nullable to be set (used to reach secured operations).
 	SetAll bool
+	// EmptySlices allows empty and nil slices outside bodies too (response header arrays: the handler decides).
+	EmptySlices bool
 	// NoEmptyStrings avoids empty string values (wire-validity oracle restriction).
 	NoEmptyStrings bool
 }
@@ -426,7 +428,7 @@ func (g *Gen) Value(t reflect.Type, loc Loc) reflect.Value {
 		v.SetFloat(g.float(32))
 	case reflect.Slice:
 		n := 1 + r.IntN(4)
-		if loc == LocBody && r.IntN(4) == 0 {
+		if (loc == LocBody || g.EmptySlices) && r.IntN(4) == 0 {
 			n = 0
 		}
 		if g.depth > 5 {
@@ -435,7 +437,7 @@ func (g *Gen) Value(t reflect.Type, loc Loc) reflect.Value {
 				n = 1
 			}
 		}
-		if n == 0 && loc == LocBody && r.IntN(2) == 0 {
+		if n == 0 && (loc == LocBody || g.EmptySlices) && r.IntN(2) == 0 {
 			return v // a nil slice: expressible, and must travel as [] (not null) where the schema is not nullable
 		}
 		s := reflect.MakeSlice(t, n, n)
